@@ -200,8 +200,11 @@ def structure(rng, atoms, case, flat_p=0.3, depth=0, in_bracket=False):
             allbr = all(b for _, b in chunk)
             anybr = any(b for _, b in chunk)
             case.feats.add("flatten" if depth == 0 else "flatten-nested")
-            if False:
-                pass
+            if allbr and not in_bracket and rng.random() < case.note.get("br_flat_p", 0.0):
+                # a bracket around a parenthesised group: ONE dimension of the elementary operation
+                inner = structure(rng, [(n, False) for n, _ in chunk], case, flat_p * 0.6, depth + 1, True)
+                items.append((Br([Flat(inner)]), False))
+                case.feats.add("bracket-around-flatten")
             else:
                 inner = structure(rng, chunk, case, flat_p * 0.6, depth + 1, in_bracket)
                 if anybr:
@@ -660,6 +663,7 @@ def gen_reduce(rng, P, op=None):
     vec = make_vars(rng, namer, rng.randint(0, 3), maxlen, ell_p=P["ell_p"])
     red = make_vars(rng, namer, rng.choice([0, 1, 1, 1, 2, 2, 3]), maxlen, bracket=True, ell_p=P["ell_p"])
     _register(case, vec + red)
+    case.note["br_flat_p"] = P.get("br_flat_p", 0.0)
     mode = rng.choice(["bracket", "bracket", "bracket", "unbracketed"])
     if mode == "unbracketed" and red and all(v.plain for v in red) and all(v.plain for v in vec):
         # no brackets, explicit output: axes missing from the output are reduced; no name twice
@@ -889,8 +893,10 @@ def gen_preserve(rng, P, op=None):
     _register(case, br + vec)
     order = perm(rng, br + vec)
     atoms_ = insert_units(rng, _atoms(case, rng, order), case, 0.08)
+    if op not in ("sort", "argsort"):
+        case.note["br_flat_p"] = P.get("br_flat_p", 0.0)
     case.inputs = [structure(rng, atoms_, case, P["flat_p"])]
-    if rng.random() < 0.45:
+    if rng.random() < 0.45 or "bracket-around-flatten" in case.feats:
         case.outputs = None
         case.eff_outputs = [copy_expr(case.inputs[0])]
         case.feats.add("implicit-output")
@@ -911,6 +917,10 @@ def gen_preserve(rng, P, op=None):
         nbl = sum(len(v.sizes) for v in br)
         if nbl == 0:
             raise Skip()  # Appendix A: roll needs at least one bracketed axis
+        if "bracket-around-flatten" in case.feats:
+            # one shift per dimension of the elementary sub-tensor
+            from .expr import elementary_dims
+            nbl = len(elementary_dims(expand(case.inputs[0], case.reps), {l.name: 1 for l in xleaves(expand(case.inputs[0], case.reps))}))
         r = rng.random()
         if r < 0.4 or nbl == 0:
             case.opts["shift"] = rng.randint(-3, 4)
@@ -938,7 +948,13 @@ def gen_argfind(rng, P, op=None):
         raise Skip()
     order = perm(rng, br + vec)
     atoms_ = _atoms(case, rng, order)
+    case.note["br_flat_p"] = P.get("br_flat_p", 0.0)
     case.inputs = [structure(rng, atoms_, case, P["flat_p"] * 0.7)]
+    case.note["br_flat_p"] = 0.0
+    if "bracket-around-flatten" in case.feats:
+        from .expr import elementary_dims
+        xe = expand(case.inputs[0], case.reps)
+        nb = len(elementary_dims(xe, {l.name: 1 for l in xleaves(xe)}))
     nbr_nodes = len([n for n in walk(case.inputs[0]) if isinstance(n, Br)])
     if any(isinstance(n, Ell) and any(isinstance(m, Br) for m in walk(n.items)) for n in walk(case.inputs[0])):
         nbr_nodes = 99  # a bracket under an ellipsis is repeated: not "a single bracketed expression"
@@ -1002,7 +1018,7 @@ GEN = {
     "argfind": gen_argfind,
 }
 
-DEFAULT_P = {"maxlen": 5, "ell_p": 0.12, "flat_p": 0.25}
+DEFAULT_P = {"maxlen": 5, "ell_p": 0.12, "flat_p": 0.25, "br_flat_p": 0.0}
 
 
 def finalize_case(case, rng, nprng, P):
@@ -1021,6 +1037,8 @@ def finalize_case(case, rng, nprng, P):
             for l in xleaves(e):
                 l.bracket = l.tname not in out_names
     choose_kwargs(rng, case)
+    if "bracket-around-flatten" in case.feats:
+        _brflat_kwargs(rng, case)
     if not case.dtypes:
         case.dtypes = [rng.choice(["float64", "float64", "int64"]) for _ in case.inputs]
     # data-moving operations work for every dtype: widen the pool there
@@ -1038,6 +1056,38 @@ def finalize_case(case, rng, nprng, P):
         _fill_coords(case, tensors, nprng)
     case.tensors = tensors
     return case
+
+
+def _brflat_groups(case):
+    """Names inside every Br([Flat(..)]) group of the description."""
+    groups = []
+    for e in list(case.inputs) + list(case.outputs or []):
+        for n in walk(e):
+            if isinstance(n, Br) and len(n.items) == 1 and isinstance(n.items[0], Flat):
+                at_root = any(n is r for r in e)
+                groups.append((at_root, [m.name for m in walk(n.items[0].items) if isinstance(m, Ax)]))
+    return groups
+
+
+def _brflat_kwargs(rng, case):
+    """A bracketed parenthesised group is one dimension whose total is known from the shape: the sizes of its
+    inner axes are not needed. With probability 1/2 they are withheld (feature brflat-inner-sizes-omitted);
+    otherwise they stay (feature brflat-inner-sizes-given)."""
+    counts = {}
+    for e in list(case.inputs) + list(case.outputs or []):
+        for n in walk(e):
+            if isinstance(n, Ax):
+                counts[n.name] = counts.get(n.name, 0) + 1
+    given = False
+    for at_root, names in _brflat_groups(case):
+        # only a group that is a whole dimension of the tensor has its total fixed by the shape alone
+        only_here = at_root and all(counts.get(nm, 0) == 1 for nm in names)
+        if only_here and rng.random() < 0.5:
+            for nm in names:
+                case.kwargs.pop(nm, None)
+        if any(nm in case.kwargs for nm in names) or not only_here:
+            given = True
+    case.feats.add("brflat-inner-sizes-given" if given else "brflat-inner-sizes-omitted")
 
 
 def _fill_coords(case, tensors, nprng):
@@ -1094,6 +1144,8 @@ def risk(case):
     tags = []
     if "multi-bracket-in-flatten" in case.feats:
         tags.append("multi-bracket-in-flatten")
+    if "brflat-inner-sizes-given" in case.feats:
+        tags.append("bracket-around-flatten-with-inner-sizes")
     seen = {}
 
     def rec(items, depth):
